@@ -2,6 +2,7 @@
 package engines
 
 import (
+	_ "verif/engines/client"
 	_ "verif/engines/coord"
 	_ "verif/engines/coordpure"
 	_ "verif/engines/kvmodel"
